@@ -55,7 +55,7 @@ func (f *Decf) Call(s *slip.Scope, args slip.List, depth int) (result slip.Objec
 		switch td := delta.(type) {
 		case slip.Fixnum:
 			if td == math.MinInt64 { // the one fixnum whose negation is not a fixnum
-				delta = (*slip.Bignum)(new(big.Int).Neg(big.NewInt(int64(td))))
+				delta = slip.IntegerFromBig(new(big.Int).Neg(big.NewInt(int64(td))))
 			} else {
 				delta = -td
 			}
@@ -66,7 +66,7 @@ func (f *Decf) Call(s *slip.Scope, args slip.List, depth int) (result slip.Objec
 		case *slip.LongFloat:
 			delta = (*slip.LongFloat)(new(big.Float).Neg((*big.Float)(td)))
 		case *slip.Bignum:
-			delta = (*slip.Bignum)(new(big.Int).Neg((*big.Int)(td)))
+			delta = slip.IntegerFromBig(new(big.Int).Neg((*big.Int)(td)))
 		case *slip.Ratio:
 			delta = (*slip.Ratio)(new(big.Rat).Neg((*big.Rat)(td)))
 		case slip.Complex:
